@@ -83,15 +83,6 @@ func (v *Vue) evalVFor(ctx VueContext, node *html.Node, nodes []*html.Node, dept
 			return result, skipCount, err
 		}
 
-		for _, n := range loopNodes {
-			if err := v.evalVHtml(ctx, n); err != nil {
-				return result, skipCount, err
-			}
-			if _, err := v.evalAttributes(ctx, n); err != nil {
-				return result, skipCount, err
-			}
-		}
-
 		result = append(result, loopNodes...)
 
 		// If v-for produced no results, check for v-else on the next sibling
